@@ -1,6 +1,7 @@
 package imgworld
 
 import (
+	"context"
 	"encoding/json"
 	"fmt"
 	"path/filepath"
@@ -9,7 +10,9 @@ import (
 
 	scalibr "github.com/google/osv-scalibr"
 	"github.com/google/osv-scalibr/extractor/filesystem"
+	scalibrfs "github.com/google/osv-scalibr/fs"
 	"github.com/google/osv-scalibr/plugin"
+	"github.com/google/osv-scalibr/stats"
 	"pgregory.net/rapid"
 	"verif/sim"
 )
@@ -27,6 +30,9 @@ type C10Scenario struct {
 	ReadSymlinks bool   `json:"read_symlinks,omitempty"`
 	// Deadline: the cancellations arrive the way an expired deadline does (context.DeadlineExceeded)
 	Deadline bool `json:"deadline,omitempty"`
+	// Inodes: "" | "V-1" | "V" | "V+1" | "2V": MaxInodes for one more container scan, relative to the
+	// number V of inodes a scan of the final view visits.
+	Inodes string `json:"inodes,omitempty"`
 	// Cancels (replay narrowing): only these cancellation instants; empty = every Extract call.
 	Cancels []int     `json:"cancels,omitempty"`
 	L       int64     `json:"limit"`
@@ -36,7 +42,7 @@ type C10Scenario struct {
 
 func (C10) ID() string { return "C10" }
 func (C10) Rule() string {
-	return "(image) MaxFileBytes = L in {1,7,512}; 1-4 layers (empty history entries interleaved, broken histories included) whose archives hold regular files of size L-1, L, L+1, 2L (and a few unrelated sizes) over <=6 paths, rewritten across layers and now and then twice within one archive, seeded stream chunking; loaded with the real FromV1Image (simulated v1.Image) or FromTarball (real docker-save tarball); evaluation = one image load + observation of every chain-layer view (recursive walk and direct Stat/Open of every path) + snapshot of ExtractDir while the image is alive; non-trivial = the image holds at least one file of size >= L and one below. Container-scan configuration (1 in 3 scenarios): 2-5 layers rewriting 1-2 package-list files with 0-7 nine-byte lines each (deleted / re-created in between) so that the size of a path crosses MaxFileSize = L in {15, 30, 45} between layers; real Scanner.ScanContainer (main scan + trace.PopulateLayerDetails re-running filesystem.Run on older views) optionally a symlink to a list file that the extractor requires too and ReadSymlinks (3 in 4); a harness extractor records Info.Size() and the bytes it could read for EVERY file it is handed; then cancel() is delivered from inside the k-th Extract call for EVERY k of the fault-free run (main scan and tracing phase; in 1 of 3 scenarios the context ends the way an expired deadline does): no Extract call may start afterwards, and the scan must not report success when extractions of the fault-free run remained; non-trivial = a path is within the limit in the final view and above it in an earlier view, or work remained after a cancellation instant; distinct = distinct scenario JSON"
+	return "(image) MaxFileBytes = L in {1,7,512}; 1-4 layers (empty history entries interleaved, broken histories included) whose archives hold regular files of size L-1, L, L+1, 2L (and a few unrelated sizes) over <=6 paths, rewritten across layers and now and then twice within one archive, seeded stream chunking; loaded with the real FromV1Image (simulated v1.Image) or FromTarball (real docker-save tarball); evaluation = one image load + observation of every chain-layer view (recursive walk and direct Stat/Open of every path) + snapshot of ExtractDir while the image is alive; non-trivial = the image holds at least one file of size >= L and one below. Container-scan configuration (1 in 3 scenarios): 2-5 layers rewriting 1-2 package-list files with 0-7 nine-byte lines each (deleted / re-created in between) so that the size of a path crosses MaxFileSize = L in {15, 30, 45} between layers; real Scanner.ScanContainer (main scan + trace.PopulateLayerDetails re-running filesystem.Run on older views) optionally a symlink to a list file that the extractor requires too and ReadSymlinks (3 in 4); a harness extractor records Info.Size() and the bytes it could read for EVERY file it is handed; then cancel() is delivered from inside the k-th Extract call for EVERY k of the fault-free run (main scan and tracing phase; in 1 of 3 scenarios the context ends the way an expired deadline does): no Extract call may start afterwards, and the scan must not report success when extractions of the fault-free run remained; 5 in 6 scenarios add a container scan with MaxInodes in {V-1, V, V+1, 2V} (V = inodes a scan of the final view visits) and a stats collector counting AfterInodeVisited over the whole ScanContainer (main scan + every tracing re-extraction): the count stays within MaxInodes and a final view with more inodes than the limit gives FAILED; non-trivial = a path is within the limit in the final view and above it in an earlier view, or work remained after a cancellation instant; distinct = distinct scenario JSON"
 }
 
 var c10Paths = []string{"a", "b", "d/a", "d/b", "d/e/a", "x"}
@@ -87,6 +93,7 @@ func genC10Scan(rt *rapid.T) *C10Scenario {
 	genHistory(rt, &sc.Image, nl, true)
 	sc.ReadSymlinks = rapid.IntRange(0, 3).Draw(rt, "read_symlinks") > 0
 	sc.Deadline = rapid.IntRange(0, 2).Draw(rt, "deadline") == 0
+	sc.Inodes = rapid.SampledFrom([]string{"", "V-1", "V", "V", "V+1", "2V"}).Draw(rt, "inodes")
 	return sc
 }
 
@@ -312,6 +319,45 @@ func runC10Scan(sc *C10Scenario, out *sim.Outcome) *sim.Outcome {
 	checkSizes(recs, "free")
 	out.Count("extract_calls", int64(len(recs)))
 
+	// inode limit: counted over the WHOLE container scan (main scan + every tracing re-extraction)
+	if sc.Inodes != "" {
+		mk := func() *listExtractor {
+			return &listExtractor{spec: &ListExtSpec{Name: "list/rec", PurlType: "generic", Files: required}}
+		}
+		count := func(container bool, maxInodes int) (int, bool) {
+			col := &inodeCounter{}
+			cfg := &scalibr.ScanConfig{FilesystemExtractors: []filesystem.Extractor{mk()}, ReadSymlinks: sc.ReadSymlinks, MaxInodes: maxInodes, Stats: col}
+			var res *scalibr.ScanResult
+			var err error
+			if container {
+				res, err = scalibr.New().ScanContainer(context.Background(), img, cfg)
+			} else {
+				cfg.ScanRoots = []*scalibrfs.ScanRoot{{FS: chain[last].FS()}}
+				res = scalibr.New().Scan(context.Background(), cfg)
+			}
+			return col.n, err == nil && res != nil && res.Status != nil && res.Status.Status == plugin.ScanStatusSucceeded
+		}
+		V, _ := count(false, 0)
+		limit := map[string]int{"V-1": V - 1, "V": V, "V+1": V + 1, "2V": 2 * V}[sc.Inodes]
+		if limit > 0 {
+			out.Executions += 2
+			mainN, _ := count(false, limit)
+			total, ok := count(true, limit)
+			hist = append(hist, fmt.Sprintf("inodes V=%d limit=%d main=%d total=%d ok=%v", V, limit, mainN, total, ok))
+			out.Count("inode_limit_container_scans", 1)
+			if total > limit {
+				where := "across-tracing-re-extractions"
+				if mainN > limit {
+					where = "main-scan"
+				}
+				out.Violate("inode-limit-exceeded", "inode-limit-exceeded:"+where, "MaxInodes=%d but the container scan processed %d inodes (a scan of the final view alone: %d without limit, %d with it); reported success: %v; %s", limit, total, V, mainN, ok, ctxs)
+			}
+			if V > limit && ok {
+				out.Violate("inode-limit-not-reported", "inode-limit-not-reported", "the final view holds %d inodes, MaxInodes=%d, yet ScanContainer reports SUCCEEDED; %s", V, limit, ctxs)
+			}
+		}
+	}
+
 	// cancellation at every Extract call of the fault-free run
 	n := len(recs)
 	freeAttribution := lastAttribution
@@ -373,3 +419,11 @@ func runC10Scan(sc *C10Scenario, out *sim.Outcome) *sim.Outcome {
 	dedupeByKey(out)
 	return out
 }
+
+// inodeCounter counts the inodes the engine reports as visited.
+type inodeCounter struct {
+	stats.NoopCollector
+	n int
+}
+
+func (c *inodeCounter) AfterInodeVisited(string) { c.n++ }
